@@ -125,7 +125,8 @@ func genAK(t *rapid.T, label string) akFile {
 		case "key":
 			haveKey = true
 			it.Key = rapid.IntRange(0, len(pool)-1).Draw(t, label+"key")
-			it.Options = rapid.SampledFrom([]string{"", "", "no-pty", `command="echo hi",no-pty`, `from="10.0.0.1,*.example.org"`, `environment="A=b c",no-port-forwarding`, `command="a \"quoted\" thing"`}).Draw(t, label+"opts")
+			it.Options = rapid.SampledFrom([]string{"", "", "no-pty", `command="echo hi",no-pty`, `from="10.0.0.1,*.example.org"`, `environment="A=b c",no-port-forwarding`, `command="a \"quoted\" thing"`,
+				`environment="TICKET=OPS#4711"`, `command="/bin/true # maintenance",no-pty`}).Draw(t, label+"opts")
 			it.Comment = rapid.SampledFrom([]string{"", "user@host", "my key 2024", "# odd", "ssh-rsa AAAA"}).Draw(t, label+"cmt")
 			it.Lead = rapid.SampledFrom([]string{"", "", "", " ", "\t"}).Draw(t, label+"lead")
 		case "comment":
